@@ -1334,7 +1334,8 @@ class CursedHR:
         add_entries("Action keys:")
 
         for key, val in options.items():
-            add_entries(f"{key}", f"    {val}: ")
+            # key first, description as (wrappable) text: the description as prefix left no room for the text
+            add_entries(val, f"    {key}: ")
 
         add_entries("")
         add_entries("Log level keys (ordered from highest to lowest):")
